@@ -5,21 +5,38 @@ SPEC = {
     "tests": [
         {"name": "TestAccounting", "quick": 640, "thorough": 48000, "shards_quick": 8, "shards_thorough": 16, "timeout": 2400,
          "race_thorough": True},
+        # sleep-bound, real time: the case count per process is fixed inside the test (vf.Batch: 24 quick / 96 thorough, 32 at a time)
+        {"name": "TestSparseProfiles", "quick": 48, "thorough": 384, "shards_quick": 2, "shards_thorough": 4, "timeout": 900,
+         "race_thorough": True},
     ],
     "rule": ("rapid-generated single-pool configurations run through the real engine.Engine with recording doubles: 1-8 instances "
              "(startup once/const/instance_step), shared or per-instance finite profile tree (<= 100 tokens, pre-started 0-3 s in the "
              "past so late tokens are discarded without sleeping), ammo bound around the token count or unbounded, discard_overflow "
              "on/off, shot durations 0/50us/1ms, acquire delays, provider queue 0/1/64; each case is executed 3 times. Non-trivial = "
-             ">= 2 instances and min(tokens, ammo) >= instances; distinct = hash of the case."),
+             ">= 2 instances and min(tokens, ammo) >= instances; distinct = hash of the case. "
+             "TestSparseProfiles: the same oracle for profiles run in real time whose tokens are seconds apart, so that an instance is "
+             "handed a token that is due 1-3 s later: const below 1 rps, line rising from 0 / falling to 0, bursts separated by 1-2 "
+             "token-less sections of 0.3-2.9 s (const ops 0 / line 0-0), instance_step and step-from-0 with step durations of seconds, "
+             "optionally with a burst before / after (last token at most 3.3 s after the start; one long interval in five is 0.3-1 s); "
+             "1-5 instances, shared or per-instance, ammo unbounded / = / > / < tokens, discard_overflow on/off, shots of 0-20 ms, "
+             "constructor or config-decoded profile; each case once, 24 cases concurrently per process. How far ahead a token was when "
+             "Next returned it is measured by a logging schedule wrapper. Non-trivial there = some token was handed out more than 1 s "
+             "before its time and min(tokens, ammo) >= 2."),
     "floors": {"TestAccounting/ammo_lt_tokens": 0.1, "TestAccounting/ammo_eq_tokens": 0.1, "TestAccounting/per_instance": 0.3,
                "TestAccounting/shared": 0.3, "TestAccounting/discards": 0.03, "TestAccounting/composite_profile": 0.3,
-               "TestAccounting/profile_via_config": 0.1, "TestAccounting/ammo_ran_out_while_instances_were_still_being_started": 0.1, "TestAccounting/per_instance_composite_via_config": 0.05},
+               "TestAccounting/profile_via_config": 0.1, "TestAccounting/ammo_ran_out_while_instances_were_still_being_started": 0.1, "TestAccounting/per_instance_composite_via_config": 0.05,
+               "TestSparseProfiles/token_handed_out_more_than_1s_ahead": 0.5, "TestSparseProfiles/token_handed_out_more_than_2s_ahead": 1,
+               "TestSparseProfiles/several_instances_waited_more_than_1s": 0.15, "TestSparseProfiles/far_token_and_bounded_ammo": 0.1,
+               "TestSparseProfiles/shape_const_below_1rps": 0.08, "TestSparseProfiles/shape_pause_between_parts": 0.08,
+               "TestSparseProfiles/per_instance": 0.2, "TestSparseProfiles/shared": 0.2},
     "manifest": {
         "technique": "property-based testing (rapid) of the real engine with recording doubles; conservation-law oracle over the recorded history",
         "text": ("The real engine runs generated pool configurations against doubles that record every Acquire/Release/Shoot/Report; "
                  "after Engine.Run returned nil the history must satisfy fired+discarded = min(tokens, ammo), each item released "
                  "exactly once and never used after release, unfired <= instances-1 (shared) / 0 (per-instance), request = response = "
-                 "fired, InstanceStart = InstanceFinish. Interleavings are those the Go scheduler produced (3 runs per case; -race in thorough)."),
+                 "fired, InstanceStart = InstanceFinish. Interleavings are those the Go scheduler produced (3 runs per case; -race in thorough). "
+                 "A second test runs the same oracle in real time on sparse profiles (rates below 1 rps, lines from / to 0, pauses of "
+                 "seconds between sections), where instances hold an ammo item while their token is 1-3 s in the future."),
         "note": "Trusts the doubles (internal/fake) and the schedule tree reference (C01/C02) for the token count; goroutine interleavings are sampled, not controlled.",
     },
     "assumptions": ["token count of the profile is taken from the C02 reference chain of its parts"],
